@@ -21,6 +21,7 @@ def showDateRes : Dt.DateRes → String
   | .ok c => showCivil c
   | .missing400 => "missing"
   | .invalid400 => "invalid"
+def tzNames (s : String) : List Str := if s == "-" then [] else (s.splitOn ",").map fromHex
 def attrOf : String → Option Ru.Attr
   | "sc" => some .scheme | "nl" => some .netloc | "ho" => some .host | "rp" => some .rootPath | "sd" => some .subdomain
   | "fw" => some .forwarded | "fs" => some .forwardedScheme | "fh" => some .forwardedHost | "ru" => some .relativeUri
@@ -40,10 +41,11 @@ def runAttrs (k : Ru.Core) (codes : String) : String :=
   " ".intercalate ((Ru.run k as {}).1.map showVal)
 def step (line : String) : String :=
   match line.trimAscii.toString.splitOn " " with
-  | ["date", obs, v] => showC (Dt.httpDateToDt (obs == "1") (fromHex v))
+  | ["date", tz, obs, v] => showC (Dt.httpDateToDt (tzNames tz) (obs == "1") (fromHex v))
+  | ["fmtold", y, m, d, h, i, s] => toHex (Dt.dtToHttpUnpadded ⟨y.toNat!, m.toNat!, d.toNat!, h.toNat!, i.toNat!, s.toNat!⟩)
   | ["fmt", y, m, d, h, i, s] => toHex (Dt.dtToHttp ⟨y.toNat!, m.toNat!, d.toNat!, h.toNat!, i.toNat!, s.toNat!⟩)
   | ["reqdate", v] => showDateRes (Dt.reqDate (optS v))
-  | ["getdt", req, obs, v] => showDateRes (Dt.getHeaderAsDatetime (optS v) (req == "1") (obs == "1"))
+  | ["getdt", tz, req, obs, v] => showDateRes (Dt.getHeaderAsDatetime (tzNames tz) (optS v) (req == "1") (obs == "1"))
   | ["rfc850", y, m, d, h, i, s] => toHex (Dt.rfc850Date ⟨y.toNat!, m.toNat!, d.toNat!, h.toNat!, i.toNat!, s.toNat!⟩)
   | ["asctime", y, m, d, h, i, s] => toHex (Dt.asctimeDate ⟨y.toNat!, m.toNat!, d.toNat!, h.toNat!, i.toNat!, s.toNat!⟩)
   | ["wsgi", sch, host, sname, sport, script, path, strip, qs, fwd, xfp, xfh, codes] =>
